@@ -164,6 +164,17 @@ def run(ctx):
     vlib.run(args, timeout=3000)
     cases = open(os.path.join(ctx.work, "cases.txt")).read().split("\n")[:-1]
     impl = open(os.path.join(ctx.work, "impl.txt")).read().split("\n")[:-1]
+    corpus_n = 0
+    corpus_file = os.path.join(vlib.VERIF, "corpus", "C09", "cases.txt")
+    if not ctx.replay and os.path.exists(corpus_file):
+        # corpus first: minimized regression cases (witnesses of the known classes, past disagreements)
+        cdir = os.path.join(ctx.work, "corpus")
+        os.makedirs(cdir, exist_ok=True)
+        vlib.run([harness, "--mode", "lit", "--out", cdir, "--replay-cases", corpus_file], timeout=600)
+        c0 = open(os.path.join(cdir, "cases.txt")).read().split("\n")[:-1]
+        i0 = open(os.path.join(cdir, "impl.txt")).read().split("\n")[:-1]
+        corpus_n = len(c0)
+        cases, impl = c0 + cases, i0 + impl
     p = vlib.run([exe], input="\n".join(cases) + "\n", timeout=3000, stderr=None) if cases else None
     model = p.stdout.split("\n")[:-1] if p else []
     if not (len(cases) == len(impl) == len(model)):
@@ -359,6 +370,9 @@ def run(ctx):
                          "excluded_classes": {k: {"count": v.get("count"), "why": v.get("why")} for k, v in tw.get("excluded_classes", {}).items()},
                          "num_kind_checks": tw.get("num_kind_checks"), "crlf_invariance_checks": tw.get("crlf_invariance_checks"),
                          "quoted_form_checks": tw.get("quoted_form_checks")},
+            "idents": {k: v for k, v in (ex.get("idents") or {}).items() if k in ("cases", "verdicts", "by_kind", "disagreements", "legend")}
+                      | {"excluded_classes": {k: {"count": v.get("count"), "why": v.get("why")}
+                                              for k, v in (ex.get("idents") or {}).get("excluded_classes", {}).items()}},
             "wall_ms": ex.get("wall_ms"),
         }
 
@@ -385,6 +399,7 @@ def run(ctx):
                 "len(text) >= 2 whose quoted body differs from the text; U accepted (ok) with >= 4 bytes; counted over distinct case lines",
         "samples": samples,
         "case_kinds": kinds,
+        "corpus_cases": corpus_n,
         "input_distribution": dist,
         "cross_validation": {"impl_unquote_of_model_quote": xval, "quotes_compared_bytewise": kinds.get("Q", 0)},
         "known_class_counts": {"autohash-leading-quotes": known_auto, "U-escape-int32": known_u32},
